@@ -611,6 +611,11 @@ struct Engine : public vf::Engine {
                 char* p = 0; bool threw = false, testFailure = false;
                 try {
                     if (o.kind == H_CALLOC) p = (char*)cpputest_calloc_location((size_t)o.b, (size_t)o.c, file, line);
+                    else if (o.kind == H_STRDUP && o.b >= 0 && (size_t)o.b <= src.size() && (o.d % 3) == 0) {
+                        // strndup of the first n characters of a buffer that holds exactly n characters and no terminator (the C library's strndup reads at most n)
+                        size_t n = (size_t)o.b; char* exact = (char*)::malloc(n ? n : 1); memcpy(exact, src.data(), n); fired("strndup_from_unterminated_buffer");
+                        p = cpputest_strndup_location(exact, n, file, line); ::free(exact);
+                    }
                     else if (o.kind == H_STRDUP) p = o.b == -1 ? cpputest_strdup_location(src.c_str(), file, line) : cpputest_strndup_location(src.c_str(), o.b <= -2 ? SIZE_MAX - (size_t)(-2 - o.b) : (size_t)o.b, file, line);
                     else if (route == 2) {
                         // nothrow new x a platform that really returns NULL: the default allocator turns the NULL into a test failure that is
